@@ -31,13 +31,13 @@ func oneOrigin(m *RunModel, o ssa.Value) string {
 		return "param:" + core.ParamName(x)
 	case *ssa.Extract:
 		if call, ok := x.Tuple.(*ssa.Call); ok {
-			n := core.CalleeName(&call.Call)
+			n := core.CalleeName(core.NormCall(&call.Call))
 			if i := strings.LastIndex(n, "."); i >= 0 {
 				n = n[i+1:]
 			}
-			if (n == "PairSellWithOrders" || n == "PairBuyWithOrders") && len(call.Call.Args) > 0 {
+			if (n == "PairSellWithOrders" || n == "PairBuyWithOrders") && len(core.NormCall(&call.Call).Args) > 0 {
 				// the commission swap (fee coin → base) vs a swap of the user's own trade
-				if strings.HasSuffix(core.Path(call.Call.Args[0]), ".CommissionCoin()") {
+				if strings.HasSuffix(core.Path(core.NormCall(&call.Call).Args[0]), ".CommissionCoin()") {
 					return fmt.Sprintf("feeSwap#%d", x.Index)
 				}
 				return fmt.Sprintf("tradeSwap#%d", x.Index)
@@ -45,24 +45,24 @@ func oneOrigin(m *RunModel, o ssa.Value) string {
 			return fmt.Sprintf("%s#%d", n, x.Index)
 		}
 	case *ssa.Call:
-		n := core.CalleeName(&x.Call)
+		n := core.CalleeName(core.NormCall(&x.Call))
 		if i := strings.LastIndex(n, "."); i >= 0 {
 			n = n[i+1:]
 		}
 		// big.NewInt(0).Set(x) / Add(a,b): describe by operands
 		switch n {
 		case "Set":
-			if len(x.Call.Args) == 2 {
-				return "copy(" + originKind(m, x.Call.Args[1]) + ")"
+			if len(core.NormCall(&x.Call).Args) == 2 {
+				return "copy(" + originKind(m, core.NormCall(&x.Call).Args[1]) + ")"
 			}
 		case "Add", "Sub", "Mul", "Div", "Neg":
 			var parts []string
-			for _, a := range x.Call.Args[1:] {
+			for _, a := range core.NormCall(&x.Call).Args[1:] {
 				parts = append(parts, originKind(m, a))
 			}
 			return n + "(" + strings.Join(parts, ",") + ")"
 		case "NewInt":
-			if k, ok := core.ConstInt(x.Call.Args[0]); ok {
+			if k, ok := core.ConstInt(core.NormCall(&x.Call).Args[0]); ok {
 				return fmt.Sprintf("big(%d)", k)
 			}
 		}
@@ -98,7 +98,7 @@ func feeSignature(m *RunModel) FeeSig {
 				add(fmt.Sprintf("PairSellWithOrders(commissionCoin, base, %s, %s)", originKind(m, s.Arg(2)), originKind(m, s.Arg(3))))
 			}
 		case "Accounts.AddBalance":
-			if src := ownerCreditSource(s); src != nil && strings.HasSuffix(core.Path(src.Call.Args[0]), ".CommissionCoin()") {
+			if src := ownerCreditSource(s); src != nil && strings.HasSuffix(core.Path(core.NormCall(&src.Call).Args[0]), ".CommissionCoin()") {
 				add("AddBalance(order owner, " + coinKind(core.Path(s.Arg(1))) + ", order value)")
 			}
 		case "Coins.SubVolume":
